@@ -18,7 +18,9 @@
 package main
 
 import (
+	"encoding/json"
 	"sort"
+	"strconv"
 	"strings"
 )
 
@@ -52,7 +54,40 @@ type schemaDef struct {
 	Tables []tableDef
 }
 
+// reading selects how the one point the documentation leaves open is read:
+// does a source row with an EMPTY foreign key "match" a target row whose key
+// is empty? ("Empty foreign keys are allowed even if the target table does not
+// have a matching row" can be read either way.) emptyMatches=false: an empty
+// foreign key never matches; true: it matches the target row with the empty
+// key, so that row's delete / key change blocks or cascades like any other.
+type reading struct{ emptyMatches bool }
+
 type row []string
+
+// rows hold raw bytes: written to replay files as Go-quoted strings
+func (r row) MarshalJSON() ([]byte, error) {
+	q := make([]string, len(r))
+	for i, v := range r {
+		q[i] = strconv.Quote(v)
+	}
+	return json.Marshal(q)
+}
+
+func (r *row) UnmarshalJSON(b []byte) error {
+	var q []string
+	if err := json.Unmarshal(b, &q); err != nil {
+		return err
+	}
+	*r = make(row, len(q))
+	for i, v := range q {
+		u, err := strconv.Unquote(v)
+		if err != nil {
+			return err
+		}
+		(*r)[i] = u
+	}
+	return nil
+}
 
 func (r row) key() string { return strings.Join(r, "\x1f") }
 
@@ -150,7 +185,14 @@ type verdict struct {
 	// FkEngaged: the operation needed a foreign key decision (non-empty
 	// foreign key on a source row, or a target row with matching sources).
 	FkEngaged bool
-	Cascaded  int // number of rows changed by cascading
+	Cascaded  int  // number of rows changed by cascading
+	NoRow     bool // the row to delete / update does not exist
+	// SelfOldKey: an update of a row of a recursive table whose new foreign
+	// key equals the row's own OLD key while the key changes
+	SelfOldKey bool
+	// SelfCascade: an update changes the key of a row that references itself
+	// through a key that cascades updates
+	SelfCascade bool
 }
 
 func (v *verdict) refuse(reason string) {
@@ -175,16 +217,20 @@ func (v *verdict) only(reason string) bool {
 }
 
 // apply returns the state after o and the verdict. st is not modified.
-func (sc *schemaDef) apply(st mstate, o op) (mstate, verdict) {
+func (sc *schemaDef) apply(st mstate, o op, rd reading) (mstate, verdict) {
 	var v verdict
+	if o.Kind != "insert" && st.find(o.T, o.Old) < 0 {
+		v.NoRow = true // nothing to delete / update (only inside two-operation transactions)
+		return st, v
+	}
 	w := st.clone()
 	switch o.Kind {
 	case "insert":
 		sc.insert(w, o.T, o.New, &v)
 	case "delete":
-		sc.delete(w, o.T, o.Old, &v)
+		sc.delete(w, o.T, o.Old, rd, &v)
 	case "update":
-		sc.update(w, o.T, o.Old, o.New, true, &v)
+		sc.update(w, o.T, o.Old, o.New, true, rd, &v)
 	}
 	if v.Refuse {
 		return st, v
@@ -244,7 +290,7 @@ type rowRef struct {
 // delete removes r and, through cascading keys, every matching source row
 // (transitive closure). Anything in the closure that is referenced through a
 // key that does not cascade deletes refuses the whole operation.
-func (sc *schemaDef) delete(w mstate, t int, r row, v *verdict) {
+func (sc *schemaDef) delete(w mstate, t int, r row, rd reading, v *verdict) {
 	closure := map[rowRef]bool{}
 	onStack := map[rowRef]bool{}
 	type blocker struct {
@@ -266,7 +312,7 @@ func (sc *schemaDef) delete(w mstate, t int, r row, v *verdict) {
 		defer delete(onStack, ref)
 		for s := range sc.Tables {
 			for _, f := range sc.Tables[s].Fks {
-				if f.To != t || allEmpty(r, f.ToCols) {
+				if f.To != t || (allEmpty(r, f.ToCols) && !rd.emptyMatches) {
 					continue
 				}
 				kt := tuple(r, f.ToCols)
@@ -315,7 +361,7 @@ func (sc *schemaDef) delete(w mstate, t int, r row, v *verdict) {
 
 // update replaces old by nw. top is false for updates done by cascading (no
 // source-side check: the new foreign key value is the new target key).
-func (sc *schemaDef) update(w mstate, t int, old, nw row, top bool, v *verdict) {
+func (sc *schemaDef) update(w mstate, t int, old, nw row, top bool, rd reading, v *verdict) {
 	if old.eq(nw) {
 		return
 	}
@@ -332,7 +378,8 @@ func (sc *schemaDef) update(w mstate, t int, old, nw row, top bool, v *verdict) 
 			}
 		}
 	}
-	// as a source row
+	// as a source row: the NEW row must have a matching target in the
+	// resulting table content
 	if top {
 		for _, f := range td.Fks {
 			if allEmpty(nw, f.Cols) {
@@ -342,33 +389,41 @@ func (sc *schemaDef) update(w mstate, t int, old, nw row, top bool, v *verdict) 
 			want := tuple(nw, f.Cols)
 			found := false
 			for _, x := range w[f.To] {
-				if tuple(x, f.ToCols) != want {
-					continue
+				if tuple(x, f.ToCols) == want && !(f.To == t && x.eq(old)) {
+					found = true
 				}
-				found = true
-				if f.To == t && x.eq(old) && tuple(old, f.ToCols) != tuple(nw, f.ToCols) {
-					// the only candidate target is the row being changed
+			}
+			if !found && f.To == t {
+				keyChanges := tuple(old, f.ToCols) != tuple(nw, f.ToCols)
+				switch {
+				case tuple(nw, f.ToCols) == want && !keyChanges:
+					found = true // references itself, its key stays
+				case tuple(nw, f.ToCols) == want:
+					// references its own NEW key: a match exists only after
+					// the update; the documentation does not say which counts
 					v.Ambiguous = true
+					found = true
+				case tuple(old, f.ToCols) == want:
+					// references the key this very update gives up: no match
+					// in the result
+					v.SelfOldKey = true
 				}
 			}
 			if !found {
-				if f.To == t && tuple(nw, f.ToCols) == want {
-					v.Ambiguous = true // the new row references itself
-				}
 				v.refuse("fk-source")
 			}
 		}
 	}
 	// as a target row
 	type casc struct {
-		s      int
-		q, nq  row
-		isSelf bool
+		s     int
+		q, nq row
 	}
 	var cascades []casc
+	selfBlock := false
 	for s := range sc.Tables {
 		for _, f := range sc.Tables[s].Fks {
-			if f.To != t || allEmpty(old, f.ToCols) {
+			if f.To != t || (allEmpty(old, f.ToCols) && !rd.emptyMatches) {
 				continue
 			}
 			okt, nkt := tuple(old, f.ToCols), tuple(nw, f.ToCols)
@@ -380,6 +435,18 @@ func (sc *schemaDef) update(w mstate, t int, old, nw row, top bool, v *verdict) 
 					continue
 				}
 				v.FkEngaged = true
+				if s == t && q.eq(old) {
+					// The row references itself. It is replaced by the new
+					// record as given (whose own foreign key was judged
+					// above); there is no other row to cascade to or to be
+					// blocked by.
+					if cascadesUpdates(f.Mode) {
+						v.SelfCascade = true
+					} else {
+						selfBlock = true
+					}
+					continue
+				}
 				if !cascadesUpdates(f.Mode) {
 					v.refuse("fk-block")
 					continue
@@ -388,16 +455,17 @@ func (sc *schemaDef) update(w mstate, t int, old, nw row, top bool, v *verdict) 
 				for i, c := range f.Cols {
 					nq[c] = nw[f.ToCols[i]]
 				}
-				self := s == t && q.eq(old)
-				if self {
-					v.Ambiguous = true
-				}
-				cascades = append(cascades, casc{s, q, nq, self})
+				cascades = append(cascades, casc{s, q, nq})
 			}
 		}
 	}
 	if v.Refuse {
 		return
+	}
+	if selfBlock {
+		// literally "there are matching source rows" (the row itself), but the
+		// update removes that very reference: left open
+		v.Ambiguous = true
 	}
 	i := w.find(t, old)
 	if i < 0 {
@@ -405,36 +473,12 @@ func (sc *schemaDef) update(w mstate, t int, old, nw row, top bool, v *verdict) 
 	}
 	w[t][i] = nw
 	for _, c := range cascades {
-		if c.isSelf {
-			// the row itself (ambiguous case): cascaded values on top of nw
-			j := w.find(t, nw)
-			r := append(row(nil), nw...)
-			for _, col := range cascadeCols(sc, c.s, t) {
-				r[col.src] = nw[col.dst]
-			}
-			w[t][j] = r
-			continue
-		}
 		v.Cascaded++
-		sc.update(w, c.s, c.q, c.nq, false, v)
+		sc.update(w, c.s, c.q, c.nq, false, rd, v)
 		if v.Refuse {
 			return
 		}
 	}
-}
-
-type colPair struct{ src, dst int }
-
-func cascadeCols(sc *schemaDef, s, t int) []colPair {
-	var out []colPair
-	for _, f := range sc.Tables[s].Fks {
-		if f.To == t && cascadesUpdates(f.Mode) {
-			for i, c := range f.Cols {
-				out = append(out, colPair{c, f.ToCols[i]})
-			}
-		}
-	}
-	return out
 }
 
 // invariant returns a description of the first foreign key or key violation
